@@ -37,6 +37,7 @@ RULE = (
     "solutions(any); `draw` (tikz output, stub measurer, both orientations) exits 0 on the first lines with well-formed output.  Extra: a sample is "
     "re-run with `python -m superrec2.cli` as subprocesses and must give the same status and output.  Non-trivial: >=1 unnamed ancestor or an "
     "O#/S#-like given name, and >=3 object leaves; distinct by SHA-1 of the case."
+    '  Also: cost options are the ones the written solutions must carry (compared), default-valued options omitted in half of the runs, a decoy cost vector in the input file in a quarter, one case in eight with the default vector and a single zero; a quarter of the ext_spfs/superdtl cases have a multifurcation (written trees checked as refinements of the labelled input); a fifth of the files carry branch lengths; one cost vector in 12 with a huge unit cost.'
 )
 ASSUMPTIONS = ["binary trees; leaf names follow <species>_<id>", "cost options inside the coherent region (F-COHERENCE outside)", "cost options are Python literals accepted by the tool (float(\"inf\") for infinity)"]
 BUDGET = {"quick": {"random": 4000}, "thorough": {"random": 40000}}
